@@ -109,7 +109,8 @@ def rowDiff (want got : List (Nat × List Smp)) : List (Nat × Smp) × List (Nat
 
     Classification of a failing query (used only to match `known_findings.jsonl`, finding F28): the
     judge remembers, per series, the newest stored sample at the moment a deletion removed it
-    (`ghost`). If the only discrepancy of a query is that such samples — re-appended later with the
+    (`ghost`); when a later deletion removes a newer newest sample, an earlier ghost that was re-appended
+    identically in between (the reference holds it again) is kept, because the head never stored it. If the only discrepancy of a query is that such samples — re-appended later with the
     identical timestamp and value, acknowledged and committed — are missing, the verdict carries
     `kind=identical-reappend-after-delete`; the judge then adopts the implementation's view for those
     samples and keeps judging, so that a different discrepancy later in the same history is still
@@ -139,7 +140,12 @@ def judge (ops outs : List String) : String :=
                 | some l =>
                   -- the ghost is the newest PHYSICAL sample: never replace it by an older one
                   let older := g.any fun q => q.1 == p.1 && decide (l.t < q.2.t)
-                  if hitOf sel p.1 && decide (a ≤ l.t ∧ l.t ≤ b) && !older then (p.1, l) :: g.filter (·.1 ≠ p.1) else g
+                  -- an earlier ghost of the same series that the reference holds again (its identical
+                  -- re-append was acknowledged and committed, a no-op in the head) and that this deletion
+                  -- does not cover stays lost in the implementation: keep it next to the new ghost
+                  let lost := fun (q : Nat × Smp) => q.1 == p.1 && p.2.contains q.2 && !decide (a ≤ q.2.t ∧ q.2.t ≤ b)
+                  if hitOf sel p.1 && decide (a ≤ l.t ∧ l.t ≤ b) && !older then
+                    (p.1, l) :: g.filter (fun q => q.1 ≠ p.1 || lost q) else g
                 | none => g) ghost
             | _ => ghost
           let delEver' := match op with
